@@ -18,7 +18,7 @@ CLAIMED = {
 
 KRILL_NOTE = ("Trusted: TLC; the rpki crate's decoding/validation routines used by the relying-party walk and the projection; "
               "the projection of real state onto resource atoms and key roles. Model bounds: TA <- A <- {B,C,D}, one parent per CA, "
-              "A's holdings fixed, 2-3 resource atoms, <= 6 (quick) / 12 (thorough) API operations per behaviour in the exhaustive runs, "
+              "A's holdings fixed, 2-3 resource atoms, <= 6 (quick) / 7-8 (thorough) API operations per behaviour in the exhaustive runs, "
               "unbounded background tasks. Known findings (known-findings.json) are reported as KNOWN-FINDING, not as violations; "
               "the invariants are stated for states free of them.")
 
